@@ -215,6 +215,7 @@ fn add_sessions(a: &mut SessionsRunStats, s: &SessionsRunStats) {
     a.long_sessions += s.long_sessions;
     a.soak_runs += s.soak_runs;
     a.other_calls += s.other_calls;
+    a.fresh_thread_queries += s.fresh_thread_queries;
     a.space_variants += s.space_variants;
     a.calls_temp_format += s.calls_temp_format;
     a.coop_runs += s.coop_runs;
@@ -366,7 +367,7 @@ pub fn cmd_oracle(args: &[String]) -> u8 {
         eprintln!("bad oracle arguments");
         return 2;
     };
-    if e >= 8 || f >= 3 {
+    if e >= 8 || f >= 6 {
         return 2;
     }
     let o = sim_sessions::eval_entry(&Entry::from_idx(e), f, &s);
@@ -1304,6 +1305,7 @@ fn evidence_json(opts: &Opts, kind: SimKind, prop: &'static str, agg: &Agg, wall
                     ("yield_sites", J::obj(vec![("enum_term_parser", J::u(s.coop_sites[1])), ("lexical_term_parser", J::u(s.coop_sites[2])), ("lexical_fold", J::u(s.coop_sites[3])), ("term_hash", J::u(s.coop_sites[4])), ("term_eq", J::u(s.coop_sites[5]))])),
                 ]),
             ));
+            cov.push(("fresh_thread_oracle_queries", J::u(s.fresh_thread_queries)));
             cov.push(("restart_oracle_process_histories", J::u(agg.restart_segments)));
             cov.push(("restart_oracle_runs_in_histories", J::u(agg.restart_runs)));
             cov.push(("restart_oracle_queries", J::u(agg.restart_queries)));
